@@ -433,7 +433,11 @@ func c10Upload(c c10Case, wd *world.World, u *world.Client, cut int, fail func(s
 			data = data[off:]
 			fallthrough
 		case 1:
-			ff := ref.FlatFile(info, data, nil)
+			var rsrc []byte
+			if e.Rsrc { // a three-fork item: the server stores or discards the resource fork, and stays in step
+				rsrc = c08Rsrc()
+			}
+			ff := ref.FlatFile(info, data, rsrc)
 			x.send(append(binary.BigEndian.AppendUint32(nil, uint32(len(ff))), ff...))
 			if x.dead {
 				return true
@@ -656,6 +660,14 @@ func c10Cases(thorough bool) []c10Case {
 			cs = append(cs, c10Case{Mode: "upload", Tree: t, Target: target})
 		}
 		cs = append(cs, c10Case{Mode: "roundtrip", Tree: t})
+	}
+	// uploads whose items carry a resource fork
+	for _, t := range [][]c10Entry{
+		{{Path: "a", Size: 5, Rsrc: true}, {Path: "b c", Size: 1}, {Path: "sub", Dir: true}, {Path: "sub/x", Size: 1, Rsrc: true}},
+	} {
+		for target := 0; target < 3; target++ {
+			cs = append(cs, c10Case{Mode: "upload", Tree: t, Target: target})
+		}
 	}
 	// files with stored information / resource forks inside the folder
 	for _, t := range [][]c10Entry{
